@@ -3,6 +3,8 @@ import FontVerif.Model.Base
 import FontVerif.Model.RangeSet
 import FontVerif.Model.SparseBitSet
 import FontVerif.Model.IntSet
+import FontVerif.Model.BitSetConc
+import FontVerif.Model.IntSetIterConc
 namespace FontVerif.Drv.C14
 open FontVerif
 
@@ -202,6 +204,110 @@ def isRun (args : List String) : Option String :=
     pure (if outs.isEmpty then "-" else " | ".intercalate outs)
   | _ => none
 
+/-! ### the same op sequences on the CONCRETE representation (Model/BitSetConc.lean) -/
+
+structure CRegs where
+  c0 : IntSet.CIntSet
+  c1 : IntSet.CIntSet
+  c2 : IntSet.CIntSet
+
+def CRegs.get (r : CRegs) (i : Nat) : IntSet.CIntSet :=
+  if i = 0 then r.c0 else if i = 1 then r.c1 else r.c2
+
+def CRegs.set (r : CRegs) (i : Nat) (s : IntSet.CIntSet) : CRegs :=
+  if i = 0 then { r with c0 := s } else if i = 1 then { r with c1 := s } else { r with c2 := s }
+
+/-- order-sensitive checksum of a sequence of naturals (mod the Mersenne prime 2^61 - 1) -/
+def layoutHash (xs : List Nat) : Nat :=
+  xs.foldl (fun h x => (h * 1000003 + x % 2305843009213693951 + 1) % 2305843009213693951) 7
+
+/-- the numbers `Serialize` shows for `Membership::{Inclusive,Exclusive}(BitSet { pages, page_map, length })` -/
+def layoutNumbers (s : IntSet.CIntSet) : List Nat :=
+  [if s.inverted then 1 else 0, s.set.len, s.set.pages.length, s.set.pageMap.length] ++
+  s.set.pageMap.flatMap (fun e => [e.1, e.2]) ++
+  s.set.pages.flatMap (fun p => p.elems ++ [p.len])
+
+def LAYOUT_FULL_CAP : Nat := 8
+def CONC_ITER_CAP : Nat := 5000
+
+def showLayoutFull (s : IntSet.CIntSet) : String :=
+  if s.set.pages.length > LAYOUT_FULL_CAP then "-" else
+  let pm := if s.set.pageMap.isEmpty then "-" else
+    ",".intercalate (s.set.pageMap.map (fun e => s!"{e.1}:{e.2}"))
+  let pg := if s.set.pages.isEmpty then "-" else
+    ",".intercalate (s.set.pages.map (fun p => ".".intercalate (p.elems.map toString) ++ s!":{p.len}"))
+  pm ++ "/" ++ pg
+
+/-- observation of a concrete register: the exact layout, and what the transcribed state machines
+(`BitSetRangeIter`, `BitSet::iter` both ways) and `contains` compute FROM that layout -/
+def observeC (d : IntSet.Domain) (probes : List Nat) (s : IntSet.CIntSet) (absOk : Bool) (ret : String) : String :=
+  let small := s.set.len ≤ CONC_ITER_CAP && s.set.pages.length ≤ CONC_ITER_CAP
+  -- the stored BitSet's ranges are observable (iter_ranges / iter_excluded_ranges) on continuous
+  -- domains, its members (iter, both ways) on inclusive sets
+  let ranges := if small && d.continuous then showPairs (s.set.iterRanges.take ITER_CAP) else "-"
+  let fwd := if small && !s.inverted then showNats (s.set.iter.take ITER_CAP) else "-"
+  let back := if small && !s.inverted then showNats (s.set.iterRev.take ITER_CAP) else "-"
+  let contains := String.join (probes.map (fun p => bit (s.contains p)))
+  ";".intercalate [ret, bit s.inverted, toString s.set.len, toString s.set.numPages,
+    toString (layoutHash (layoutNumbers s)), showLayoutFull s, ranges, fwd, back, contains,
+    if absOk then "A1" else "A0"]
+
+def applyOpC (d : IntSet.Domain) (regs : CRegs) (tok : String) : Option (CRegs × Nat × String) :=
+  match tok.splitOn ":" with
+  | [] => none
+  | head :: params =>
+    match head.toList with
+    | [c, rc] => do
+      let r ← (String.singleton rc).toNat?
+      if r > 2 then none else
+      let s := regs.get r
+      match c, params with
+      | 'i', [v] => do let v ← v.toNat?; let x := s.insert v; pure (regs.set r x.1, r, boolStr x.2)
+      | 'd', [v] => do let v ← v.toNat?; let x := s.remove v; pure (regs.set r x.1, r, boolStr x.2)
+      | 'I', [a, b] => do
+        let a ← a.toNat?; let b ← b.toNat?
+        pure (regs.set r (s.insertRange d a b), r, "-")
+      | 'D', [a, b] => do
+        let a ← a.toNat?; let b ← b.toNat?
+        pure (regs.set r (s.removeRange d a b), r, "-")
+      -- the harness calls `extend` for an even number of values, `extend_unsorted` for an odd one
+      | 'x', [vs] => do
+        let vs ← splitNats? "," vs
+        pure (regs.set r (if vs.length % 2 = 0 then s.extend vs else s.extendUnsorted vs), r, "-")
+      | 'X', [vs] => do let vs ← splitNats? "," vs; pure (regs.set r (s.removeAll vs), r, "-")
+      | 'u', [q] => do let q ← q.toNat?; if q > 2 then none else pure (regs.set r (s.union (regs.get q)), r, "-")
+      | 'n', [q] => do let q ← q.toNat?; if q > 2 then none else pure (regs.set r (s.intersect (regs.get q)), r, "-")
+      | 's', [q] => do let q ← q.toNat?; if q > 2 then none else pure (regs.set r (s.subtract (regs.get q)), r, "-")
+      | 'k', [q] => do let q ← q.toNat?; if q > 2 then none else pure (regs.set r (regs.get q), r, "-")
+      | 'v', [] => pure (regs.set r s.invert, r, "-")
+      | 'c', [] => pure (regs.set r s.clear, r, "-")
+      | 'a', [] => pure (regs.set r IntSet.CIntSet.all, r, "-")
+      | 'e', [] => pure (regs.set r IntSet.CIntSet.empty, r, "-")
+      | _, _ => none
+    | _ => none
+
+/-- `isc.run <domain> <probes> <op> <op> …`: run the ops on the concrete AND the abstract model;
+per op the concrete observation plus `A1` iff `abs (concrete register) = abstract register` -/
+def iscRun (args : List String) : Option String :=
+  match args with
+  | dom :: probes :: ops => do
+    let d ← parseDomain? dom
+    let probes ← splitNats? "," probes
+    let init : Regs := ⟨IntSet.IntSet.empty, IntSet.IntSet.empty, IntSet.IntSet.empty⟩
+    let initC : CRegs := ⟨IntSet.CIntSet.empty, IntSet.CIntSet.empty, IntSet.CIntSet.empty⟩
+    let rec go (regs : Regs) (cregs : CRegs) (ops : List String) (acc : List String) : Option (List String) :=
+      match ops with
+      | [] => some acc.reverse
+      | tok :: rest =>
+        match applyOp d regs tok, applyOpC d cregs tok with
+        | some (regs', r, _), some (cregs', _, ret) =>
+          let absOk := decide ((cregs'.get r).abs = regs'.get r)
+          go regs' cregs' rest (observeC d probes (cregs'.get r) absOk ret :: acc)
+        | _, _ => none
+    let outs ← go init initC ops []
+    pure (if outs.isEmpty then "-" else " | ".intercalate outs)
+  | _ => none
+
 def handle (cmd : String) (args : List String) : Option String :=
   match cmd with
   | "rs.run" => rsRun args
@@ -210,6 +316,7 @@ def handle (cmd : String) (args : List String) : Option String :=
   | "sbs.spec" => sbsSpec args
   | "sbs.enc" => sbsEnc args
   | "is.run" => isRun args
+  | "isc.run" => iscRun args
   | _ => none
 
 end FontVerif.Drv.C14
